@@ -51,6 +51,28 @@ NumCompositionColsV(t, Fixed) == IF Fixed THEN Max2(1, CompositionDegree(t) \div
                                  ELSE Max2(1, (CompositionDegree(t) + N(t) - 1) \div N(t))
 NumCompositionCols(t) == NumCompositionColsV(t, TRUE)
 
+\* ---- the assertions of a statement (the first t.nasserts of five templates covering every assertion kind; they never
+\* name a common cell) and the cells they name ---------------------------------------------------------------
+AsrT(kind, col, first, stride, count) == [kind |-> kind, col |-> col, first |-> first, stride |-> stride, count |-> count]
+AssertTemplates(t) ==
+    LET n == N(t)  w == t.width
+    IN  << AsrT("single", 0, 0, 0, 1),
+           AsrT("single", w - 1, n - 1, 0, 1),
+           AsrT("periodic", 0, 1, 4, 1),
+           AsrT("sequence", 2 % w, 2, 4, n \div 4),
+           IF w >= 4 THEN AsrT("sequence", 3, 0, 2, n \div 2) ELSE AsrT("single", 0, 4, 0, 1) >>
+Asserts(t) == SubSeq(AssertTemplates(t), 1, t.nasserts)
+StepsOfA(a, n) == CASE a.kind = "single"   -> {a.first}
+                    [] a.kind = "periodic" -> {a.first + a.stride * j : j \in 0..((n \div a.stride) - 1)}
+                    [] a.kind = "sequence" -> {a.first + a.stride * j : j \in 0..(a.count - 1)}
+AssertedCells(t) == UNION {{<<Asserts(t)[x].col, s>> : s \in StepsOfA(Asserts(t)[x], N(t))} : x \in 1..t.nasserts}
+
+(* Soundness rule for the ShapeAir family (property C02).  Constraint c reads cur[c], cur[c+1 mod w] and next[c]; the
+   transition from step j to j+1 is enforced for j <= n-k-1.  Changing the single cell (c, i) of a valid trace makes the
+   trace invalid iff the cell is asserted, or it is the `next` of an enforced transition (1 <= i <= n-k), or the `cur` of
+   one (i <= n-k-1).  Cells of the rows n-k+1 .. n-1 that are not asserted are free.                          *)
+Violated(t, c, i) == <<c, i>> \in AssertedCells(t) \/ i <= N(t) - t.k
+
 \* ---- what the quantifier of C01 admits -----------------------------------------------------------------
 Admissible(t) ==
     /\ OptionsAccepted(t)
